@@ -47,6 +47,7 @@ class BuildResult(object):
         self.bad_axioms = {}      # theorem -> offending axioms
         self.forbidden_hits = []
         self.translate_status = {}
+        self.rechecked = None
         self.wall_s = 0.0
 
 
@@ -126,7 +127,7 @@ def forbidden_scan():
     return hits
 
 
-def build_and_audit(prop, extra_modules=(), need_driver=True, gen_modules=None):
+def build_and_audit(prop, extra_modules=(), need_driver=True, gen_modules=None, recheck=False):
     """translate -> lake build (driver, Props/<prop>) -> axiom audit.  Never raises on a failed
     proof: the caller decides what a broken obligation means."""
     sys.path.insert(0, os.path.join(VERIF, 'tools'))
@@ -188,6 +189,15 @@ def build_and_audit(prop, extra_modules=(), need_driver=True, gen_modules=None):
                 if res.bad_axioms:
                     res.ok = False
                     res.failed_targets.append('axiom-audit')
+        if recheck and res.ok:
+            # thorough tier: replay the compiled declarations of the property's module (and everything it
+            # imports from this project) through leanchecker, the toolchain's independent kernel re-checker
+            rc3, out3 = lake(['env', 'leanchecker', props_mod])
+            res.rechecked = (rc3 == 0)
+            if rc3 != 0:
+                res.ok = False
+                res.failed_targets.append('leanchecker')
+                res.log += out3
         res.forbidden_hits = forbidden_scan()
         if res.forbidden_hits:
             res.ok = False
@@ -331,7 +341,9 @@ class Ctx(object):
         path = os.path.join(REPLAY_DIR, '%s-%s.json' % (self.prop, h))
         obj = {'property': self.prop, 'key': key, 'what': what, 'seed': self.seed, 'tier': self.tier,
                'witness': witness, 'replay': replay_obj,
-               'rerun': '/venv/bin/python tools/check.py %s --replay %s' % (self.prop, os.path.relpath(path, VERIF))}
+               # every random choice derives from VERIF_SEED, so the same command reproduces the same case;
+               # C01 can also re-execute the stored case alone with --replay <this file>
+               'rerun': 'VERIF_SEED=%d /venv/bin/python tools/check.py %s --tier %s' % (self.seed, self.prop, self.tier)}
         with open(path, 'w') as f:
             json.dump(obj, f, indent=1, default=str)
         self.violations.append({'key': key, 'what': what, 'path': path, 'witness': witness})
@@ -381,7 +393,7 @@ def proof_gate(ctx, gen_modules=None, extra_modules=()):
     """Tie A + proofs: regenerate the translated modules, rebuild the property's theorems against
     them, audit axioms.  Records one obligation per theorem, one for the audit and one per
     translated module.  Returns True when everything checked."""
-    b = build_and_audit(ctx.prop, extra_modules=extra_modules, gen_modules=gen_modules)
+    b = build_and_audit(ctx.prop, extra_modules=extra_modules, gen_modules=gen_modules, recheck=(ctx.tier == 'thorough'))
     ctx.build = b
     props_failed = ('Proofs.Props.%s' % ctx.prop) in b.failed_targets
     for t in b.theorems:
@@ -392,6 +404,8 @@ def proof_gate(ctx, gen_modules=None, extra_modules=()):
     ctx.oblige('axiom-audit', not b.bad_axioms and 'audit' not in b.failed_targets and not props_failed,
                json.dumps(b.bad_axioms))
     ctx.oblige('no-forbidden-tokens', not b.forbidden_hits, '; '.join(b.forbidden_hits[:5]))
+    if b.rechecked is not None or 'leanchecker' in b.failed_targets:
+        ctx.oblige('leanchecker:Proofs.Props.%s' % ctx.prop, bool(b.rechecked), 'independent re-check of the compiled declarations')
     for k, v in sorted(b.translate_status.items()):
         ctx.oblige('translator:' + k, v['state'] in ('unchanged', 'new', 'changed'), json.dumps(v))
     ctx.extra['build'] = {'ok': b.ok, 'failed_targets': b.failed_targets, 'wall_s': round(b.wall_s, 1),
